@@ -1,5 +1,5 @@
 """Shared machinery of ./check: build, regenerate, prove, audit, correspond, search, report."""
-import os, sys, re, json, time, subprocess, struct, hashlib, fcntl, shutil, random, math
+import random, os, sys, re, json, time, subprocess, struct, hashlib, fcntl, shutil, random, math
 
 from . import cbuild
 from .cbuild import VERIF, REPO, Scratch, BuildError
@@ -138,18 +138,25 @@ class Ctx:
         return [x for r in res for x in r]
 
     def run_c_twice(self, lines, chunk=2000):
-        """every chunk is executed as chunk + chunk + reversed(chunk) in ONE process: -> answers of the first, second and third pass
-        (the third re-ordered back).  A result that depends on what was called before (a static cache, a value left in a
-        global) shows as a difference between the passes."""
+        """every chunk is executed four times in ONE process, in different orders: as given, as given again, sorted with the
+        argument order reversed (consecutive calls then share their LAST arguments and differ in the first: what a cache keyed
+        by a subset of the arguments gets wrong), and in a seeded shuffle.  -> the four answer lists, each in the order of
+        `lines`.  A result that depends on what was called before shows as a difference between the passes."""
         from concurrent.futures import ThreadPoolExecutor
         chunks = [lines[i:i + chunk] for i in range(0, len(lines), chunk)]
-        def work(ls):
-            out = self.run_c(ls + ls + ls[::-1], chunk=None)
+        def work(arg):
+            ci, ls = arg
             n = len(ls)
-            return out[:n], out[n:2 * n], out[2 * n:][::-1]
+            o3 = sorted(range(n), key=lambda i: (ls[i].split(' ')[0], ls[i].split(' ')[:0:-1]))
+            o4 = list(range(n)); random.Random(self.seed * 7919 + ci).shuffle(o4)
+            out = self.run_c(ls + ls + [ls[i] for i in o3] + [ls[i] for i in o4], chunk=None)
+            a3 = [None] * n; a4 = [None] * n
+            for k, i in enumerate(o3): a3[i] = out[2 * n + k]
+            for k, i in enumerate(o4): a4[i] = out[3 * n + k]
+            return out[:n], out[n:2 * n], a3, a4
         with ThreadPoolExecutor(max_workers=12) as ex:
-            res = list(ex.map(work, chunks))
-        return [x for r in res for x in r[0]], [x for r in res for x in r[1]], [x for r in res for x in r[2]]
+            res = list(ex.map(work, enumerate(chunks)))
+        return tuple([x for r in res for x in r[k]] for k in range(4))
 
     def build_prdrv(self):
         """build-time driver (harness/prdrv.c) + dump of the RAW tables as prdata holds them"""
